@@ -743,4 +743,84 @@ def result {α : Type} (conv : List Rec → Val → Option α) (nodeVar : String
     pure ⟨← optM (conv st.heap (← st.get nodeVar)), acc ++ errFuel, rest⟩
   | _ => stuck
 
+/-! ### `firstParse`: a function whose parameters are functions
+
+`firstParse[T any](productions ...func() (T, error))` is generic in what its productions do.  Its body is
+interpreted with the productions as functions on an arbitrary state `σ` of the caller (for `Parse`: the
+interpreter state of `Parse` itself, on which the two function literals run, see `closure`): a variable
+of function type holds `.fn i`, the index of a production; `for _, v := range w[:len(w)-1]`, `x, err :=
+v()` and `return w[len(w)-1]()` are interpreted here (in `exec`, which has no productions, they are `stuck`).
+Slicing or indexing an empty `w` is a Go panic. -/
+
+/-- `for _, elem := range fs { body }` -/
+def rangeFP {σ : Type} (elem : String) (body : St × σ → M (Flow × (St × σ))) : List Val → St × σ → M (Flow × (St × σ))
+  | [], s => .ok (.next, s)
+  | x :: xs, (st, w) => do
+    let (f, (st1, w1)) ← body (st.declare elem x, w)
+    match f with
+    | .next | .cont => rangeFP elem body xs (st1.leave st, w1)
+    | .brk => pure (.next, (st1.leave st, w1))
+    | f => pure (f, (st1.leave st, w1))
+
+mutual
+def execFP {σ : Type} (env : Env) (prods : List (σ → M (List Val × σ))) : IStmt → St × σ → M (Flow × (St × σ))
+  | .rangeInit v w body, (st, x) => do
+    match ← st.get w with
+    | .list fs => if fs.isEmpty then goPanic else rangeFP v (execFPBlock env prods body) fs.dropLast (st, x)
+    | _ => stuck
+  | .callFn f lhs, (st, x) => do
+    match ← st.get f with
+    | .fn i =>
+      match prods[i]? with
+      | some t => do
+        let (vs, x1) ← t x
+        pure (.next, (← assignAll st lhs vs, x1))
+      | none => stuck
+    | _ => stuck
+  | .ite c t e, (st, x) => do
+    let (b, st0) ← evalCond env c st
+    let (f, (st1, x1)) ← if b then execFPBlock env prods t (st0, x) else execFPBlock env prods e (st0, x)
+    pure (f, (st1.leave st, x1))
+  | .ret es, (st, x) => do
+    let (vs, st1) ← evalAll env es st
+    pure (.ret vs, (st1, x))
+  | .retLast w, (st, x) => do
+    match ← st.get w with
+    | .list fs =>
+      match fs.getLast? with
+      | some (.fn i) =>
+        match prods[i]? with
+        | some t => do
+          let (vs, x1) ← t x
+          pure (.ret vs, (st, x1))
+        | none => stuck
+      | some _ => stuck
+      | none => goPanic
+    | _ => stuck
+  | _, _ => stuck
+
+def execFPBlock {σ : Type} (env : Env) (prods : List (σ → M (List Val × σ))) : List IStmt → St × σ → M (Flow × (St × σ))
+  | [], s => .ok (.next, s)
+  | s :: r, x => do
+    let (f, x1) ← execFP env prods s x
+    match f with
+    | .next => execFPBlock env prods r x1
+    | _ => pure (f, x1)
+end
+
+/-- `firstParse(prods…)` called in the caller's state `x`: what it returns, and the caller's state afterwards -/
+def runFirstParse {σ : Type} (env : Env) (body : List IStmt) (prods : List (σ → M (List Val × σ))) (x : σ) : M (List Val × σ) := do
+  let fns := (List.range prods.length).map Val.fn
+  let (f, (_, x1)) ← execFPBlock env prods body (entry [("productions", .list fns)], x)
+  match f with
+  | .ret vs => pure (vs, x1)
+  | _ => stuck
+
+/-- what `firstParse` computes for two productions, on any caller state (`firstOf` is the instance `σ = St`) -/
+def firstOfG {σ : Type} (a b : σ → M (List Val × σ)) (x : σ) : M (List Val × σ) := do
+  let (vs, x1) ← a x
+  match vs with
+  | [_, e] => if !isNF (← asErrs e) then pure (vs, x1) else b x1
+  | _ => stuck
+
 end Pql.OpIR
